@@ -446,7 +446,11 @@ class StringIOI(Interface):
 
 def m_StringIO(interp, args, kwargs):
     if len(args) > 1 or kwargs.get('newline') != '\n' or set(kwargs) - {'newline'}:
-        raise Unsupported('io.StringIO other than StringIO([text, ]newline="\\n")')
+        # any other StringIO (e.g. a plain buffer for a traceback) is the real one, as far as it is concrete
+        from .values import contains_sym
+        if any(contains_sym(a) for a in list(args) + list(kwargs.values())):
+            raise Unsupported('io.StringIO with symbolic text other than StringIO([text, ]newline="\\n")')
+        return io.StringIO(*args, **kwargs)
     o = new_opaque(interp, StringIOI, 'StringIO')
     init = _as_text(interp, args[0]) if args else ''
     o._pv_ghost['value'] = _t(init)
